@@ -137,6 +137,31 @@ class Subgrid:
                     t = t.value
                 if src(t) in ('self.objects', 'self'):
                     out.append((e, src(val)[:80]))
+                # rows produced by a local function / an accumulation loop: on some path (in
+                # the propositional sense: every test a free boolean) a row is one of this
+                # grid's own row lists, neither sliced, copied nor concatenated
+                rows_e = w.expand(val) if isinstance(val, ast.Name) else val
+                if isinstance(rows_e, ast.ListComp) and isinstance(rows_e.elt, ast.Call) and \
+                        isinstance(rows_e.elt.func, ast.Name) and \
+                        rows_e.elt.func.id in getattr(w, 'local_funcs', {}):
+                    h = w.local_funcs[rows_e.elt.func.id]
+                    w2 = walk_function(h)
+                    for r2 in [x for x in w2.events if x.kind == 'return'
+                               and x.value is not None]:
+                        for v2, g2 in w2._values(r2.value, r2.guard):
+                            v2 = w2.expand(v2) if isinstance(v2, ast.Name) else v2
+                            if isinstance(v2, ast.Subscript) and \
+                                    not isinstance(v2.slice, ast.Slice) and \
+                                    src(v2.value) == 'self.objects':
+                                from .guards import prop_assignments, prop_truth
+                                try:
+                                    sat = any(prop_truth(strip_iter(g2), a_)
+                                              for a_ in prop_assignments(strip_iter(g2)))
+                                except AnalysisError:
+                                    sat = True
+                                if sat:
+                                    out.append((e, f'{rows_e.elt.func.id}(..) returns '
+                                                   f'`{src(v2)}` on the path {show(g2)[:120]}'))
         return out
 
     # ------------------------------------------------------------------ fill and copy
